@@ -880,7 +880,8 @@ Definition LevelSp (P : dd -> option dnode -> option dnode -> Prop) (ds : list d
    siblings (None: absent) becomes [ob] *)
 Inductive Sp : option dop -> dd -> option dnode -> option dnode -> Prop :=
 | Sp_delete inh d a i :
-    eff_op inh (dd_op d) = Some OpDelete -> dd_id sch d = Some i -> inst_id sch a = Some i ->
+    eff_op inh (dd_op d) = Some OpDelete -> inst_id sch a = Some i -> d = dd_set_op (lift a) (dd_op d) ->
+    wf_node sch a = true ->
     Sp inh d (Some a) None
 | Sp_create inh d b i :
     eff_op inh (dd_op d) = Some OpCreate -> inst_id sch b = Some i -> d = dd_set_op (lift b) (dd_op d) ->
@@ -889,21 +890,26 @@ Inductive Sp : option dop -> dd -> option dnode -> option dnode -> Prop :=
 | Sp_replace inh d a i :
     eff_op inh (dd_op d) = Some OpReplace -> kind_of sch (dd_sid d) = KLeaf ->
     dd_id sch d = Some i -> inst_id sch a = Some i -> d_sid a = dd_sid d ->
-    beq_bytes (dd_val d) (d_val a) && negb (d_dflt a) = false ->
+    beq_bytes (dd_val d) (d_val a) = false ->
+    dd_oval d = Some (d_val a) -> dd_odflt d = Some (d_dflt a) -> dd_ch d = [] ->
     Sp inh d (Some a) (Some (set_dflt (set_val a (dd_val d)) (dd_dflt d)))
 | Sp_none_term inh d a i :
     eff_op inh (dd_op d) = Some OpNone -> is_term sch (dd_sid d) = true ->
     dd_id sch d = Some i -> inst_id sch a = Some i ->
+    dd_odflt d = Some (d_dflt a) -> dd_ch d = [] -> kind_of sch (dd_sid d) <> KAny -> dd_dflt d <> d_dflt a ->
     Sp inh d (Some a) (Some (set_dflt a (dd_dflt d)))
 | Sp_none_inner inh d a i chb :
     eff_op inh (dd_op d) = Some OpNone -> is_term sch (dd_sid d) = false ->
     dd_id sch d = Some i -> inst_id sch a = Some i -> d_sid a = dd_sid d ->
     dd_nokeys sch (dd_ch d) <> [] ->
     LevelSp (Sp (child_inh inh (dd_op d))) (dd_nokeys sch (dd_ch d)) (d_ch a) chb ->
-    SibOk (d_ch a) -> AllSome (d_ch a) -> SibOk chb ->
+    SibOk (d_ch a) -> AllSome (d_ch a) -> SibOk chb -> AllSome chb ->
     d_dflt a = is_np_cont sch (d_sid a) && forallb d_dflt (d_ch a) ->
     inst_id sch (set_ch a chb) = Some i ->
     (multi sch (d_sid a) = true -> node_key sch a = node_key sch (set_ch a chb)) ->
+    (forall c, In c (dd_nokeys sch (dd_ch d)) -> is_key sch (dd_sid c) = false) ->
+    (forall fl' o' od' ov' r', dd_id sch (DD (dd_sid d) (dd_val d) fl' o' od' ov' (dd_leadkeys sch (dd_ch d) ++ r')) = Some i) ->
+    (forall k, In k (dd_leadkeys sch (dd_ch d)) -> dd_ch k = []) ->
     Sp inh d (Some a) (Some (set_dflt (set_ch a chb) (is_np_cont sch (d_sid a) && forallb d_dflt chb))).
 
 (* what the fold over one level needs to know about one diff node *)
@@ -1090,9 +1096,11 @@ Proof. destruct 1; try (left; discriminate); right; discriminate. Qed.
 Theorem apply_sp d : forall inh oa ob, Sp inh d oa ob -> ItemOk (apply_r sch inh) (mkitem d oa ob).
 Proof.
   induction d as [s v fl op od ov ch IH] using dd_ind'. intros inh oa ob H. unfold ItemOk. cbn [it_d it_a it_b].
-  inversion H as [inh0 d0 a i He Hd Ha | inh0 d0 b i He Hb Hdd Hwf | inh0 d0 a i He Hk Hd Ha Hs Hne
-                 | inh0 d0 a i He Hk Hd Ha | inh0 d0 a i chb He Hk Hd Ha Hs Hnk Hlev Sa Hsa Sb Hfl Hidb Hkey]; subst.
-  - exists i. split; [exact Hd|]. split; [apply transforms_delete; assumption|].
+  inversion H as [inh0 d0 a i He Ha Hdd Hwf | inh0 d0 b i He Hb Hdd Hwf | inh0 d0 a i He Hk Hd Ha Hs Hne Hov Hod Hch0
+                 | inh0 d0 a i He Hk Hd Ha Hod Hch0 Hnany Hreal | inh0 d0 a i chb He Hk Hd Ha Hs Hnk Hlev Sa Hsa Sb Hsb Hfl Hidb Hkey Hnkey Hidk Hkch]; subst.
+  - assert (Hd : dd_id sch (DD s v fl op od ov ch) = Some i).
+    { rewrite Hdd, dd_id_set_op, dd_id_lift; assumption. }
+    exists i. split; [exact Hd|]. split; [apply transforms_delete; assumption|].
     split; [intros a' E; inversion E; subst; exact Ha|intros b' E; discriminate].
   - exists i.
     assert (Hid : dd_id sch (DD s v fl op od ov ch) = Some i).
@@ -1104,7 +1112,7 @@ Proof.
       * split; [apply sigs_ok_nil|reflexivity].
       * split; [apply sigs_ok_cons; split; [exact I|apply sigs_ok_nil]|reflexivity].
     + split; [intros a' E; discriminate|intros b' E; inversion E; subst; exact Hb].
-  - exists i. split; [exact Hd|]. split; [apply transforms_replace; assumption|].
+  - exists i. split; [exact Hd|]. split; [apply transforms_replace; try assumption; rewrite Hne; reflexivity|].
     split; [intros a' E; inversion E; subst; exact Ha|].
     intros b' E. inversion E; subst. rewrite inst_id_set_dflt, inst_id_set_val_leaf; [exact Ha|].
     rewrite Hs. exact Hk.
@@ -1696,5 +1704,648 @@ Proof.
       * apply key_in_other; try assumption; [symmetry; exact Es|rewrite <- Es; exact Hk|symmetry; exact Hkv].
   - exfalso. destruct a as [s va da ma cha]. cbn [d_sid] in Hk.
     pose proof (wn_kind _ _ _ _ _ (wf_node_inv _ _ _ _ _ Hwa)) as Ka. rewrite Hk in Ka. exact Ka.
+Qed.
+
+(* ------------------------------------------------------------------------------------------- *)
+(* one level of lyd_diff_siblings_r                                                              *)
+(* ------------------------------------------------------------------------------------------- *)
+Definition level_items (fa fb : forest) : list gitem :=
+  pass1_all sch (diff1 sch true) true fa (nokeys sch fb) ++ pass2_all sch true true fb (nokeys sch fa).
+
+Lemma AllSome_app_r a b : AllSome (a ++ b) -> AllSome b.
+Proof. unfold AllSome. rewrite ids_app. intros H Hin. apply H, in_or_app. right. exact Hin. Qed.
+
+Lemma level_sem top inh fa fb :
+  LevelInh top inh -> WfSibs fa -> WfSibs fb ->
+  (forall c, In c (nokeys sch fa) -> is_key sch (d_sid c) = false) ->
+  (forall c, In c (nokeys sch fb) -> is_key sch (d_sid c) = false) ->
+  Permutation (leadkeys sch fa) (leadkeys sch fb) ->
+  (forall a, In a (nokeys sch fa) -> NodeSem inh a (nokeys sch fb)) ->
+  LevelSp (Sp inh) (order_level sch top (level_items fa fb)) fa fb.
+Proof.
+  intros Hl Wa Wb Hka Hkb Hkeys HQ. unfold level_items. rewrite (diff_level_gen fa fb Hka Hkb).
+  set (la := nokeys sch fa) in *. set (lb := nokeys sch fb) in *.
+  pose proof (so_nodup _ (ws_sibs _ Wa)) as Hna. pose proof (so_nodup _ (ws_sibs _ Wb)) as Hnb.
+  rewrite (lead_nokeys fa), ids_app in Hna. rewrite (lead_nokeys fb), ids_app in Hnb.
+  apply NoDup_app_r in Hna. apply NoDup_app_r in Hnb. fold la in Hna. fold lb in Hnb.
+  assert (Hsb : AllSome lb).
+  { apply (AllSome_app_r (leadkeys sch fb)). rewrite <- lead_nokeys. apply wf_allsome, (ws_nodes _ Wb). }
+  assert (Hwfb : forall b, In b lb -> wf_node sch b = true).
+  { intros b Hb. pose proof (ws_nodes _ Wb) as H. rewrite forallb_forall in H. apply H. apply (nokeys_in _ _ Hb). }
+  destruct (gen_level_sem inh la lb Hna Hnb Hsb Hwfb HQ) as [ms [unch [F2 [Hpa [Hpb Hnd]]]]].
+  destruct (fix_ops_its top inh Hl _ _ F2 true) as [its [E1 [E2 [E3 [E4 E5]]]]].
+  apply (LevelSp_perm _ (map it_d its)); [rewrite E1; symmetry; apply order_level_perm|].
+  assert (EA : itA its = msA ms).
+  { unfold itA, msA. rewrite (flat_map_opt_map it_a), (flat_map_opt_map (fun m : mean => fst m)), E2. reflexivity. }
+  assert (EB : itB its = msB ms).
+  { unfold itB, msB. rewrite (flat_map_opt_map it_b), (flat_map_opt_map (fun m : mean => snd m)), E3. reflexivity. }
+  exists its, (leadkeys sch fa ++ unch).
+  split; [reflexivity|]. split; [exact E4|]. split; [rewrite E5; exact Hnd|].
+  split.
+  - rewrite EA. rewrite (lead_nokeys fa) at 1. fold la. rewrite Hpa. apply Permutation_app_swap_app.
+  - rewrite EB. rewrite (lead_nokeys fb) at 1. fold lb. rewrite Hpb, <- Hkeys. apply Permutation_app_swap_app.
+Qed.
+
+(* ------------------------------------------------------------------------------------------- *)
+(* one node of the first tree                                                                    *)
+(* ------------------------------------------------------------------------------------------- *)
+Lemma diff1_unfold s v d m ch bs :
+  diff1 sch true (DN s v d m ch) bs =
+    match find_match sch true bs (inst_id sch (DN s v d m ch)) with
+    | None => [(dd_set_op (lift (DN s v d m ch)) (Some OpDelete), SA, false)]
+    | Some b =>
+        match kind_of sch s with
+        | KLeaf =>
+            if negb (beq_bytes v (d_val b)) then
+              [(DD s (d_val b) (d_dflt b) (Some OpReplace) (Some d) (Some v) [], SB, false)]
+            else if xorb d (d_dflt b) then
+              [(DD s (d_val b) (d_dflt b) (Some OpNone) (Some d) None [], SB, false)]
+            else []
+        | KLeafList =>
+            if xorb d (d_dflt b) then [(DD s (d_val b) (d_dflt b) (Some OpNone) (Some d) None [], SB, false)] else []
+        | KAny => []
+        | KCont _ | KList =>
+            match level_items ch (d_ch b) with
+            | [] => []
+            | g0 :: r =>
+                let src := match item_side g0 with SA => DN s v d m ch | SB => b end in
+                let kids := map lift (leadkeys sch (d_ch src)) ++ order_level sch false (level_items ch (d_ch b)) in
+                [(DD s [] (d_dflt src && forallb dd_dflt kids)
+                     (if is_inner_item g0 then None else Some OpNone) None None kids, item_side g0, true)]
+            end
+        end
+    end.
+Proof. destruct d; reflexivity. Qed.
+
+Lemma diff1_sid a bs g : In g (diff1 sch true a bs) -> dd_sid (gd g) = d_sid a.
+Proof.
+  destruct a as [s v d m ch]. rewrite diff1_unfold. cbn [d_sid].
+  destruct (find_match sch true bs _) as [b|].
+  - destruct (kind_of sch s) as [p| | | |].
+    + destruct (level_items ch (d_ch b)); [intros []|]. cbn zeta. intros [<-|[]]. reflexivity.
+    + destruct (negb _); [intros [<-|[]]; reflexivity|]. destruct (xorb _ _); [intros [<-|[]]; reflexivity|intros []].
+    + destruct (xorb _ _); [intros [<-|[]]; reflexivity|intros []].
+    + destruct (level_items ch (d_ch b)); [intros []|]. cbn zeta. intros [<-|[]]. reflexivity.
+    + intros [].
+  - intros [<-|[]]. unfold gd. cbn [fst]. destruct (lift (DN s v d m ch)) eqn:E. cbn [dd_set_op dd_sid].
+    pose proof (dd_sid_lift (DN s v d m ch)) as H. rewrite E in H. exact H.
+Qed.
+
+Lemma gen_level_sid la lb g : In g (gen_level la lb) -> exists x, (In x la \/ In x lb) /\ dd_sid (gd g) = d_sid x.
+Proof.
+  unfold gen_level. intro H. apply in_app_or in H. destruct H as [H|H]; apply in_flat_map in H; destruct H as [x [Hx Hg]].
+  - exists x. split; [left; exact Hx|]. apply (diff1_sid _ _ _ Hg).
+  - exists x. split; [right; exact Hx|]. unfold create_item in Hg. destruct (find_match sch true la _); [destruct Hg|].
+    destruct Hg as [<-|[]]. unfold gd. cbn [fst]. pose proof (dd_sid_lift x) as E. destruct (lift x). exact E.
+Qed.
+
+Lemma dd_sid_set_op d o : dd_sid (dd_set_op d o) = dd_sid d.
+Proof. destruct d; reflexivity. Qed.
+
+Lemma fix_ops_sids top : forall G first,
+  map (fun g => dd_sid (gd g)) (fix_ops top first G) = map (fun g => dd_sid (gd g)) G.
+Proof.
+  induction G as [|[[d sd] inner] G IH]; intro first; [reflexivity|]. cbn [fix_ops map]. rewrite IH. f_equal.
+  unfold gd. cbn [fst]. destruct inner, top, first; try reflexivity; apply dd_sid_set_op.
+Qed.
+
+Lemma order_level_sid top G d : In d (order_level sch top G) -> exists g, In g G /\ dd_sid d = dd_sid (gd g).
+Proof.
+  intro H. apply (Permutation_in _ (order_level_perm top G)) in H.
+  assert (H' : In (dd_sid d) (map (fun g => dd_sid (gd g)) (fix_ops top true G))).
+  { apply in_map_iff in H. destruct H as [g [E Hg]]. apply in_map_iff. exists g. split; [unfold gd; rewrite E; reflexivity|exact Hg]. }
+  rewrite fix_ops_sids in H'. apply in_map_iff in H'. destruct H' as [g [E Hg]]. exists g. split; [exact Hg|symmetry; exact E].
+Qed.
+
+Lemma dd_nokeys_app_keys K r :
+  (forall k, In k K -> is_key sch (dd_sid k) = true) -> (forall c, In c r -> is_key sch (dd_sid c) = false) ->
+  dd_nokeys sch (K ++ r) = r.
+Proof.
+  intros HK Hr. induction K as [|k K IH]; cbn [app dd_nokeys].
+  - destruct r as [|c r]; [reflexivity|]. cbn [dd_nokeys]. rewrite (Hr c (or_introl eq_refl)). reflexivity.
+  - rewrite (HK k (or_introl eq_refl)). apply IH. intros x Hx. apply HK. right. exact Hx.
+Qed.
+
+(* a key child of a well-formed node is a leaf: its copy in the diff has no children *)
+Lemma wf_key_child n x : wf_node sch n = true -> In x (d_ch n) -> is_key sch (d_sid x) = true -> dd_ch (lift x) = [].
+Proof.
+  destruct n as [s v d m ch]. cbn [d_ch]. intros Hw Hx Hk. pose proof (wf_node_inv _ _ _ _ _ Hw) as W.
+  destruct (is_key_inv _ Hk) as [p [Hp Hin]]. rewrite (wn_parent _ _ _ _ _ W x Hx) in Hp. inversion Hp; subst p.
+  pose proof (wn_kind _ _ _ _ _ W) as K.
+  assert (Hkl : kind_of sch (d_sid x) = KLeaf).
+  { destruct (kind_of sch s) as [[|]| | | |] eqn:Eks.
+    - exfalso. destruct K as [_ [_ Hnk]]. rewrite (Hnk x Hx) in Hk. discriminate.
+    - exfalso. destruct K as [_ [_ Hnk]]. rewrite (Hnk x Hx) in Hk. discriminate.
+    - destruct K as [-> _]. destruct Hx.
+    - destruct K as [-> _]. destruct Hx.
+    - destruct K as [_ [_ [_ Hkeys]]]. apply (Hkeys _ Hin).
+    - destruct K. }
+  pose proof (wn_ch _ _ _ _ _ W) as Hc. rewrite forallb_forall in Hc.
+  rewrite (wf_key_node x (Hc x Hx) Hkl Hk). reflexivity.
+Qed.
+
+Lemma dd_leadkeys_app_keys K r :
+  (forall k, In k K -> is_key sch (dd_sid k) = true) -> (forall c, In c r -> is_key sch (dd_sid c) = false) ->
+  dd_leadkeys sch (K ++ r) = K.
+Proof.
+  intros HK Hr. induction K as [|k K IH]; cbn [app dd_leadkeys].
+  - destruct r as [|c r]; [reflexivity|]. cbn [dd_leadkeys]. rewrite (Hr c (or_introl eq_refl)). reflexivity.
+  - rewrite (HK k (or_introl eq_refl)). f_equal. apply IH. intros x Hx. apply HK. right. exact Hx.
+Qed.
+
+Lemma wf_inner_facts s v d m ch :
+  wf_node sch (DN s v d m ch) = true -> is_term sch s = false ->
+  v = [] /\ m = [] /\ d = is_np_cont sch s && forallb d_dflt ch /\
+  (forall c, In c (nokeys sch ch) -> is_key sch (d_sid c) = false) /\ multi sch s = (match kind_of sch s with KList => true | _ => false end).
+Proof.
+  intros Hw Ht. pose proof (wf_node_inv _ _ _ _ _ Hw) as W. pose proof (wn_kind _ _ _ _ _ W) as K.
+  rewrite is_term_kind_of in Ht. unfold is_np_cont, multi.
+  destruct (kind_of sch s) as [[|]| | | |]; cbn in Ht; try discriminate.
+  - destruct K as [-> [-> Hk]]. repeat split; [apply (wn_meta _ _ _ _ _ W)|]. intros c Hc. apply Hk, (nokeys_in _ _ Hc).
+  - destruct K as [-> [-> Hk]]. repeat split; [apply (wn_meta _ _ _ _ _ W)|]. intros c Hc. apply Hk, (nokeys_in _ _ Hc).
+  - destruct K as [-> [-> [Hk _]]]. repeat split; [apply (wn_meta _ _ _ _ _ W)|exact Hk].
+Qed.
+
+Lemma inner_dd_id src fl op od ov r i :
+  wf_node sch src = true -> is_term sch (d_sid src) = false -> inst_id sch src = Some i ->
+  dd_id sch (DD (d_sid src) [] fl op od ov (map lift (leadkeys sch (d_ch src)) ++ r)) = Some i.
+Proof.
+  destruct src as [s v d m ch]. cbn [d_sid d_ch]. intros Hw Ht Hi.
+  pose proof (wf_node_inv _ _ _ _ _ Hw) as W. pose proof (wn_uo _ _ _ _ _ W) as Hu.
+  unfold dd_id. cbn [dd_node]. rewrite <- Hi.
+  destruct (kind_of sch s) eqn:Hk.
+  - rewrite !inst_id_nonmulti; try reflexivity; cbn [d_sid]; try exact Hu; unfold multi; rewrite Hk; reflexivity.
+  - rewrite is_term_kind_of, Hk in Ht. discriminate.
+  - rewrite is_term_kind_of, Hk in Ht. discriminate.
+  - rewrite !inst_id_list; cbn [d_sid]; try assumption. f_equal. f_equal. unfold key_vals. cbn [d_ch d_sid].
+    apply map_ext_in. intros k Hkin.
+    destruct (wf_list_facts _ _ _ _ _ Hw Hk) as [Hnk Hkeys]. destruct (Hkeys k Hkin) as [[y [Hy Eys]] Hkl].
+    pose proof (wn_ch _ _ _ _ _ W) as Hc. rewrite forallb_forall in Hc.
+    assert (Hyk : is_key sch (d_sid y) = true).
+    { apply (is_key_intro _ s); [apply (wn_parent _ _ _ _ _ W y Hy)|rewrite Eys; exact Hkin]. }
+    pose proof (in_leadkeys_intro _ _ Hy Hyk Hnk) as Hyl.
+    assert (EK : map dd_node (map lift (leadkeys sch ch)) = leadkeys sch ch).
+    { rewrite map_map. rewrite <- (map_id (leadkeys sch ch)) at 2. apply map_ext_in. intros x Hx.
+      apply dd_node_lift, Hc. apply (leadkeys_in _ _ Hx). }
+    rewrite map_app, EK. rewrite (lead_nokeys ch) at 2.
+    rewrite !child_val_app_l; try reflexivity; exists y; split; assumption.
+  - rewrite is_term_kind_of, Hk in Ht. discriminate.
+Qed.
+
+Lemma inst_id_inner_ch s v d m ch v' d' m' :
+  is_term sch s = false -> inst_id sch (DN s v d m ch) = inst_id sch (DN s v' d' m' ch).
+Proof.
+  intro Ht. unfold inst_id. cbn [d_sid]. destruct (dup_inst sch s); [reflexivity|]. rewrite is_term_kind_of in Ht.
+  destruct (kind_of sch s); cbn in Ht; try discriminate; reflexivity.
+Qed.
+
+Lemma node_key_list x y :
+  d_sid x = d_sid y -> kind_of sch (d_sid x) = KList -> key_vals sch x = key_vals sch y -> node_key sch x = node_key sch y.
+Proof.
+  intros Es Hk Hkv. unfold node_key. rewrite <- Es. unfold kind_of in Hk. rewrite Hk.
+  unfold key_vals in Hkv. rewrite <- Es in Hkv. apply map_ext_in. intros k Hkin.
+  rewrite (map_eq_pointwise _ _ _ Hkv k Hkin). reflexivity.
+Qed.
+
+Lemma child_inh_none inh o : eff_op inh o = Some OpNone -> child_inh inh o = Some OpNone.
+Proof. destruct o as [[| | |]|]; cbn; intro H; try discriminate; try reflexivity; assumption. Qed.
+
+Lemma beq_bytes_false_sym a b : beq_bytes a b = false -> beq_bytes b a = false.
+Proof.
+  intro H. destruct (beq_bytes b a) eqn:E; [|reflexivity]. apply beq_bytes_eq in E. subst.
+  rewrite (proj2 (beq_bytes_eq a a) eq_refl) in H. discriminate.
+Qed.
+
+Lemma level_items_gen fa fb :
+  (forall c, In c (nokeys sch fa) -> is_key sch (d_sid c) = false) ->
+  (forall c, In c (nokeys sch fb) -> is_key sch (d_sid c) = false) ->
+  level_items fa fb = gen_level (nokeys sch fa) (nokeys sch fb).
+Proof. apply diff_level_gen. Qed.
+
+(* an inner node that exists in both trees *)
+Lemma inner_sem inh s va da ma cha vb db mb chb i :
+  wf_node sch (DN s va da ma cha) = true -> wf_node sch (DN s vb db mb chb) = true -> is_term sch s = false ->
+  inst_id sch (DN s va da ma cha) = Some i -> inst_id sch (DN s vb db mb chb) = Some i ->
+  LevelSp (Sp (Some OpNone)) (order_level sch false (level_items cha chb)) cha chb ->
+  (DN s va da ma cha = DN s vb db mb chb /\ level_items cha chb = []) \/
+  exists g0 r, level_items cha chb = g0 :: r /\
+    let src := match item_side g0 with SA => DN s va da ma cha | SB => DN s vb db mb chb end in
+    let kids := map lift (leadkeys sch (d_ch src)) ++ order_level sch false (level_items cha chb) in
+    let g := (DD s [] (d_dflt src && forallb dd_dflt kids) (if is_inner_item g0 then None else Some OpNone) None None kids,
+              item_side g0, true) in
+    GM inh g (Some (DN s va da ma cha), Some (DN s vb db mb chb)) /\ dd_id sch (gd g) = Some i.
+Proof.
+  intros Hwa Hwb Ht Hia Hib Lsp.
+  destruct (wf_inner_facts _ _ _ _ _ Hwa Ht) as [-> [-> [Hda [Hnka Hma]]]].
+  destruct (wf_inner_facts _ _ _ _ _ Hwb Ht) as [-> [-> [Hdb [Hnkb _]]]].
+  pose proof (wf_node_inv _ _ _ _ _ Hwa) as Wa. pose proof (wf_node_inv _ _ _ _ _ Hwb) as Wb.
+  destruct (level_items cha chb) as [|g0 r] eqn:EG.
+  - left. split; [|reflexivity].
+    destruct Lsp as [its [unch [Eds [_ [_ [Hpa Hpb]]]]]]. cbn in Eds. symmetry in Eds. apply map_eq_nil in Eds. subst its.
+    cbn [itA itB flat_map app] in Hpa, Hpb.
+    assert (cha = chb).
+    { apply canon_ext; [apply (so_adj _ (wn_sibs _ _ _ _ _ Wa))|apply (so_adj _ (wn_sibs _ _ _ _ _ Wb))|
+                        apply (so_nodup _ (wn_sibs _ _ _ _ _ Wb))|apply (so_ordid _ (wn_sibs _ _ _ _ _ Wb))|].
+      rewrite Hpa. symmetry. exact Hpb. }
+    subst chb. rewrite Hda, Hdb. reflexivity.
+  - right. exists g0, r. split; [reflexivity|]. cbn zeta.
+    set (a := DN s [] da [] cha) in *. set (b := DN s [] db [] chb) in *.
+    set (src := match item_side g0 with SA => a | SB => b end).
+    assert (Hsrc : wf_node sch src = true /\ inst_id sch src = Some i /\ d_sid src = s).
+    { unfold src. destruct (item_side g0); repeat split; assumption. }
+    destruct Hsrc as [Hwsrc [Hisrc Hssrc]].
+    set (ol := order_level sch false (g0 :: r)) in *.
+    set (kids := map lift (leadkeys sch (d_ch src)) ++ ol).
+    set (fl := d_dflt src && forallb dd_dflt kids).
+    set (op0 := if is_inner_item g0 then None else Some OpNone).
+    assert (Hid : forall o, dd_id sch (DD s [] fl o None None kids) = Some i).
+    { intro o. rewrite <- Hssrc. unfold kids. apply inner_dd_id; [exact Hwsrc|rewrite Hssrc; exact Ht|exact Hisrc]. }
+    assert (Hol_ne : ol <> []).
+    { intro E. pose proof (Permutation_length (order_level_perm false (g0 :: r))) as Hlen. fold ol in Hlen. rewrite E in Hlen.
+      destruct g0 as [[d0 sd0] in0]. cbn [fix_ops map length] in Hlen. discriminate. }
+    assert (Hol_nk : forall c, In c ol -> is_key sch (dd_sid c) = false).
+    { intros c Hc. destruct (order_level_sid _ _ _ Hc) as [g [Hg Esid]]. rewrite <- EG in Hg.
+      rewrite (level_items_gen _ _ Hnka Hnkb) in Hg. destruct (gen_level_sid _ _ _ Hg) as [x [[Hx|Hx] Ex]];
+        rewrite Esid, Ex; [apply Hnka|apply Hnkb]; exact Hx. }
+    assert (Hkids : dd_nokeys sch kids = ol).
+    { unfold kids. apply dd_nokeys_app_keys; [|exact Hol_nk]. intros k Hk. apply in_map_iff in Hk.
+      destruct Hk as [x [<- Hx]]. rewrite dd_sid_lift. apply (leadkeys_in _ _ Hx). }
+    split; [|unfold gd; cbn [fst]; apply Hid].
+    split; [|intros _; unfold gd, op0; cbn [fst dd_op]; destruct (is_inner_item g0); [left|right]; reflexivity].
+    unfold Allowed, ginner, gd. cbn [fst snd dd_set_op]. intros o Ho.
+    assert (Eb : b = set_dflt (set_ch a chb) (is_np_cont sch (d_sid a) && forallb d_dflt chb)).
+    { unfold a, b. cbn [set_ch set_dflt d_sid]. rewrite Hdb. reflexivity. }
+    rewrite Eb. apply (Sp_none_inner inh _ a i chb); cbn [dd_op dd_sid dd_ch d_sid d_ch d_dflt].
+    + exact Ho.
+    + exact Ht.
+    + apply Hid.
+    + exact Hia.
+    + reflexivity.
+    + rewrite Hkids. exact Hol_ne.
+    + rewrite Hkids, (child_inh_none _ _ Ho). exact Lsp.
+    + apply (wn_sibs _ _ _ _ _ Wa).
+    + apply wf_allsome, (wn_ch _ _ _ _ _ Wa).
+    + apply (wn_sibs _ _ _ _ _ Wb).
+    + apply wf_allsome, (wn_ch _ _ _ _ _ Wb).
+    + exact Hda.
+    + unfold a. cbn [set_ch]. rewrite <- Hib. apply inst_id_inner_ch. exact Ht.
+    + intro M. unfold a in M. cbn [d_sid] in M. rewrite Hma in M. destruct (kind_of sch s) eqn:Hk; try discriminate.
+      apply node_key_list; [reflexivity|exact Hk|].
+      pose proof (wn_uo _ _ _ _ _ Wa) as Hu.
+      unfold a, b in *. rewrite (inst_id_list (DN s [] da [] cha) Hu Hk) in Hia.
+      rewrite (inst_id_list (DN s [] db [] chb) Hu Hk) in Hib.
+      cbn [set_ch]. unfold key_vals in *. cbn [d_ch d_sid] in *. congruence.
+    + rewrite Hkids. exact Hol_nk.
+    + intros fl' o' od' ov' r'. cbn [dd_val]. unfold kids. rewrite dd_leadkeys_app_keys.
+      * rewrite <- Hssrc. apply inner_dd_id; [exact Hwsrc|rewrite Hssrc; exact Ht|exact Hisrc].
+      * intros k Hk. apply in_map_iff in Hk. destruct Hk as [x [<- Hx]]. rewrite dd_sid_lift. apply (leadkeys_in _ _ Hx).
+      * exact Hol_nk.
+    + intros k Hk. cbn [dd_ch] in Hk. unfold kids in Hk. rewrite dd_leadkeys_app_keys in Hk; [| |exact Hol_nk].
+      * apply in_map_iff in Hk. destruct Hk as [x [<- Hx]]. destruct (leadkeys_in _ _ Hx) as [Hxin Hxk].
+        apply (wf_key_child src x Hwsrc Hxin Hxk).
+      * intros k' Hk'. apply in_map_iff in Hk'. destruct Hk' as [x [<- Hx]]. rewrite dd_sid_lift. apply (leadkeys_in _ _ Hx).
+Qed.
+
+Lemma NoDup_ids_nokeys f : NoDup (ids f) -> NoDup (ids (nokeys sch f)).
+Proof. intro H. rewrite (lead_nokeys f), ids_app in H. apply (NoDup_app_r _ _ H). Qed.
+
+Theorem diff1_sem a : wf_node sch a = true ->
+  forall inh lb, NoDup (ids lb) -> (forall b, In b lb -> wf_node sch b = true) -> NodeSem inh a lb.
+Proof.
+  induction a as [s v d m ch IH] using dnode_ind'. intros Hw inh lb Hnb Hwb.
+  pose proof (wf_node_inv _ _ _ _ _ Hw) as W.
+  destruct (inst_id_some_uo (DN s v d m ch) (wn_uo _ _ _ _ _ W)) as [i Hi]. exists i. split; [exact Hi|].
+  rewrite diff1_unfold, Hi.
+  destruct (find_match sch true lb (Some i)) as [b|] eqn:Ef.
+  2:{ (* no match: delete *)
+      eexists. split; [reflexivity|]. split.
+      - split; [|discriminate]. unfold Allowed, ginner, gd. cbn [fst snd]. intros o ->. rewrite dd_set_op_same.
+        apply (Sp_delete _ _ _ i); [destruct (lift (DN s v d m ch)); reflexivity|exact Hi| |exact Hw].
+        destruct (lift (DN s v d m ch)); reflexivity.
+      - unfold gd. cbn [fst]. rewrite dd_id_set_op, dd_id_lift; assumption. }
+  destruct (find_match_true_inv _ _ _ Ef) as [Hbin Hbi]. pose proof (Hwb b Hbin) as Hwfb.
+  pose proof (same_id_sid _ _ _ Hi Hbi) as Es. destruct b as [s' vb db mb chb]. cbn [d_sid] in Es. subst s'.
+  cbn [d_val d_dflt d_ch]. pose proof (wf_node_inv _ _ _ _ _ Hwfb) as Wb.
+  destruct (is_term sch s) eqn:Ht.
+  - (* leaf / leaf-list *)
+    pose proof (wn_kind _ _ _ _ _ W) as K. pose proof (wn_kind _ _ _ _ _ Wb) as Kb.
+    pose proof (wn_meta _ _ _ _ _ W) as Hm. pose proof (wn_meta _ _ _ _ _ Wb) as Hmb. subst m mb.
+    rewrite is_term_kind_of in Ht.
+    destruct (kind_of sch s) eqn:Hk; cbn in Ht; try discriminate.
+    + (* leaf *)
+      destruct K as [-> _], Kb as [-> _].
+      assert (Hidd : forall o od ov, dd_id sch (DD s vb db o od ov []) = Some i).
+      { intros o od ov. unfold dd_id. cbn [dd_node map]. rewrite <- Hi.
+        change (DN s vb db [] []) with (set_dflt (set_val (DN s v d [] []) vb) db).
+        rewrite inst_id_set_dflt. apply inst_id_set_val_leaf. exact Hk. }
+      destruct (beq_bytes v vb) eqn:Ev; cbn [negb].
+      * apply beq_bytes_eq in Ev. subst vb. destruct (xorb d db) eqn:Ex.
+        -- right. eexists. split; [reflexivity|]. split; [|apply Hidd].
+           split; [|discriminate]. unfold Allowed, ginner, gd. cbn [fst snd]. intros o ->. rewrite dd_set_op_same.
+           change (Some (DN s v db [] [])) with (Some (set_dflt (DN s v d [] []) (dd_dflt (DD s v db (Some OpNone) (Some d) None [])))).
+           apply (Sp_none_term _ _ _ i); [reflexivity|cbn [dd_sid]; rewrite is_term_kind_of, Hk; reflexivity|apply Hidd|exact Hi|reflexivity|reflexivity|cbn [dd_sid]; rewrite Hk; discriminate|].
+           cbn [dd_dflt d_dflt]. destruct d, db; cbn in Ex; try discriminate; discriminate.
+        -- left. split; [|reflexivity]. destruct d, db; cbn in Ex; try discriminate; reflexivity.
+      * right. eexists. split; [reflexivity|]. split; [|apply Hidd].
+        split; [|discriminate]. unfold Allowed, ginner, gd. cbn [fst snd]. intros o ->. rewrite dd_set_op_same.
+        change (Some (DN s vb db [] [])) with
+          (Some (set_dflt (set_val (DN s v d [] []) (dd_val (DD s vb db (Some OpReplace) (Some d) (Some v) [])))
+                          (dd_dflt (DD s vb db (Some OpReplace) (Some d) (Some v) [])))).
+        apply (Sp_replace _ _ _ i); [reflexivity|exact Hk|apply Hidd|exact Hi|reflexivity| |reflexivity|reflexivity|reflexivity].
+        cbn [dd_val d_val]. apply (beq_bytes_false_sym _ _ Ev).
+    + (* leaf-list: the value is part of the identity *)
+      destruct K as [-> _], Kb as [-> _].
+      assert (Evb : vb = v).
+      { pose proof (wn_uo _ _ _ _ _ W) as Hu. unfold inst_id in Hi, Hbi. cbn [d_sid d_val] in Hi, Hbi.
+        rewrite (userordered_dup_inst _ Hu), Hk in Hi, Hbi. congruence. }
+      subst vb.
+      assert (Hidd : forall o od ov, dd_id sch (DD s v db o od ov []) = Some i).
+      { intros o od ov. unfold dd_id. cbn [dd_node map]. exact Hbi. }
+      destruct (xorb d db) eqn:Ex.
+      * right. eexists. split; [reflexivity|]. split; [|apply Hidd].
+        split; [|discriminate]. unfold Allowed, ginner, gd. cbn [fst snd]. intros o ->. rewrite dd_set_op_same.
+        change (Some (DN s v db [] [])) with (Some (set_dflt (DN s v d [] []) (dd_dflt (DD s v db (Some OpNone) (Some d) None [])))).
+        apply (Sp_none_term _ _ _ i); [reflexivity|cbn [dd_sid]; rewrite is_term_kind_of, Hk; reflexivity|apply Hidd|exact Hi|reflexivity|reflexivity|cbn [dd_sid]; rewrite Hk; discriminate|].
+           cbn [dd_dflt d_dflt]. destruct d, db; cbn in Ex; try discriminate; discriminate.
+      * left. split; [|reflexivity]. destruct d, db; cbn in Ex; try discriminate; reflexivity.
+    + destruct K.
+  - (* container / list instance: the level below *)
+    destruct (wf_inner_facts _ _ _ _ _ Hw Ht) as [_ [_ [_ [Hnka _]]]].
+    destruct (wf_inner_facts _ _ _ _ _ Hwfb Ht) as [_ [_ [_ [Hnkb _]]]].
+    assert (Lsp : LevelSp (Sp (Some OpNone)) (order_level sch false (level_items ch chb)) ch chb).
+    { apply level_sem; try assumption.
+      - right. split; reflexivity.
+      - apply (wf_children _ _ _ _ _ Hw).
+      - apply (wf_children _ _ _ _ _ Hwfb).
+      - apply (keys_shared (DN s v d m ch) (DN s vb db mb chb) i); assumption.
+      - intros a Ha. rewrite Forall_forall in IH. pose proof (nokeys_in _ _ Ha) as Hain.
+        pose proof (wn_ch _ _ _ _ _ W) as Hc. rewrite forallb_forall in Hc.
+        apply IH; [exact Hain|apply Hc, Hain| |].
+        + apply NoDup_ids_nokeys. apply (so_nodup _ (wn_sibs _ _ _ _ _ Wb)).
+        + intros b Hb. pose proof (wn_ch _ _ _ _ _ Wb) as Hcb. rewrite forallb_forall in Hcb. apply Hcb, (nokeys_in _ _ Hb). }
+    destruct (inner_sem inh _ _ _ _ _ _ _ _ _ i Hw Hwfb Ht Hi Hbi Lsp) as [[Eab EG]|[g0 [r [EG [Hg Hgi]]]]].
+    + left. rewrite EG. split; [exact Eab|]. rewrite is_term_kind_of in Ht.
+      destruct (kind_of sch s); cbn in Ht; try discriminate; reflexivity.
+    + right. rewrite EG in *. cbn zeta in Hg, Hgi.
+      rewrite is_term_kind_of in Ht.
+      destruct (kind_of sch s); cbn in Ht; try discriminate; (eexists; split; [reflexivity|]; split; [exact Hg|exact Hgi]).
+Qed.
+
+(* ------------------------------------------------------------------------------------------- *)
+(* the theorems                                                                                  *)
+(* ------------------------------------------------------------------------------------------- *)
+Lemma nokeys_none f : (forall c, In c f -> is_key sch (d_sid c) = false) -> nokeys sch f = f.
+Proof. destruct f as [|x f]; [reflexivity|]. intro H. cbn [nokeys]. rewrite (H x (or_introl eq_refl)). reflexivity. Qed.
+
+Lemma wfb_nokeys f : wfb sch f = true -> forall c, In c f -> is_key sch (d_sid c) = false.
+Proof.
+  unfold wfb. intro H. apply andb_true_iff in H. destruct H as [H _]. apply andb_true_iff in H. destruct H as [H _].
+  intros c Hc. rewrite forallb_forall in H. apply negb_true_iff. apply H, Hc.
+Qed.
+
+Lemma wf_supported_node n : wf_node sch n = true -> supported_node sch n = true.
+Proof.
+  induction n as [s v d m ch IH] using dnode_ind'. intro H. pose proof (wf_node_inv _ _ _ _ _ H) as W.
+  cbn [supported_node]. rewrite (wn_uo _ _ _ _ _ W). cbn [negb andb].
+  apply andb_true_iff. split.
+  - pose proof (wn_kind _ _ _ _ _ W) as K. destruct (kind_of sch s) as [[|]| | | |]; try reflexivity.
+    + destruct K as [-> _]. reflexivity.
+    + destruct K as [-> _]. reflexivity.
+    + destruct K.
+  - apply forallb_forall. intros c Hc. rewrite Forall_forall in IH. apply IH; [exact Hc|].
+    pose proof (wn_ch _ _ _ _ _ W) as Hch. rewrite forallb_forall in Hch. apply Hch, Hc.
+Qed.
+
+Lemma wfb_supported f : wfb sch f = true -> supportedb sch f = true.
+Proof.
+  intro H. apply wfb_sibs in H. unfold supportedb. apply forallb_forall. intros c Hc.
+  apply wf_supported_node. pose proof (ws_nodes _ H) as Hn. rewrite forallb_forall in Hn. apply Hn, Hc.
+Qed.
+
+(* lyd_diff_siblings(A, B, LYD_DIFF_DEFAULTS) describes the change from A to B *)
+Theorem diff_sp fa fb : wfb sch fa = true -> wfb sch fb = true ->
+  exists ds, diff sch true fa fb = Ok ds /\ LevelSp (Sp None) ds fa fb.
+Proof.
+  intros Ha Hb. unfold diff. rewrite (wfb_supported _ Ha), (wfb_supported _ Hb). cbn [andb].
+  eexists. split; [reflexivity|].
+  pose proof (wfb_nokeys _ Ha) as Hka. pose proof (wfb_nokeys _ Hb) as Hkb.
+  pose proof (wfb_sibs _ Ha) as Wa. pose proof (wfb_sibs _ Hb) as Wb.
+  assert (E : diff_level sch true fa fb = level_items fa fb).
+  { unfold diff_level, level_items. rewrite (nokeys_none _ Hka), (nokeys_none _ Hkb). reflexivity. }
+  rewrite E. apply level_sem; try assumption.
+  - left. split; reflexivity.
+  - rewrite (nokeys_none _ Hka). exact Hka.
+  - rewrite (nokeys_none _ Hkb). exact Hkb.
+  - rewrite (leadkeys_none _ Hka), (leadkeys_none _ Hkb). reflexivity.
+  - intros a Hain. rewrite (nokeys_none _ Hka) in Hain. rewrite (nokeys_none _ Hkb).
+    pose proof (ws_nodes _ Wa) as Hn. rewrite forallb_forall in Hn.
+    apply diff1_sem; [apply Hn, Hain|apply (so_nodup _ (ws_sibs _ Wb))|].
+    intros b Hbin. pose proof (ws_nodes _ Wb) as Hnb. rewrite forallb_forall in Hnb. apply Hnb, Hbin.
+Qed.
+
+(* C06: applying diff(A,B) computed with default nodes to A yields B exactly, default flags included *)
+Theorem apply_diff_exact fa fb : wfb sch fa = true -> wfb sch fb = true ->
+  exists ds, diff sch true fa fb = Ok ds /\ apply sch ds fa = Ok fb.
+Proof.
+  intros Ha Hb. destruct (diff_sp fa fb Ha Hb) as [ds [Ed Hsp]]. exists ds. split; [exact Ed|].
+  pose proof (wfb_sibs _ Ha) as Wa. pose proof (wfb_sibs _ Hb) as Wb.
+  apply apply_level_sp; [exact Hsp|apply (ws_sibs _ Wa)|apply wf_allsome, (ws_nodes _ Wa)|apply (ws_sibs _ Wb)].
+Qed.
+
+(* ------------------------------------------------------------------------------------------- *)
+(* diff(A, A) is empty (both options)                                                            *)
+(* ------------------------------------------------------------------------------------------- *)
+Lemma find_match_self o f x i :
+  NoDup (ids f) -> In x f -> inst_id sch x = Some i ->
+  find_match sch o f (Some i) = if d_dflt x && negb o then None else Some x.
+Proof.
+  intros Hn Hx Hi. apply in_split in Hx. destruct Hx as [l1 [l2 ->]].
+  unfold find_match. rewrite (match_idx_split _ _ _ _ Hi Hn).
+  rewrite nth_error_app2, Nat.sub_diag; [|apply Nat.le_refl]. reflexivity.
+Qed.
+
+Lemma pass2_all_lead_o o l fa : pass2_all sch o true l fa = pass2_all sch o false (nokeys sch l) fa.
+Proof.
+  induction l as [|x l IH]; [reflexivity|]. cbn [pass2_all nokeys andb].
+  destruct (is_key sch (d_sid x)); [exact IH|]. cbn [pass2_all andb]. reflexivity.
+Qed.
+
+Lemma pass2_self o fa : NoDup (ids fa) -> AllSome fa -> forall l, (forall x, In x l -> In x fa) -> pass2_all sch o false l fa = [].
+Proof.
+  intros Hn Hs. induction l as [|x l IH]; intro Hl; [reflexivity|]. cbn [pass2_all andb].
+  rewrite IH; [|intros y Hy; apply Hl; right; exact Hy]. rewrite app_nil_r.
+  destruct (d_dflt x && negb o) eqn:E; [reflexivity|].
+  destruct (inst_id sch x) as [i|] eqn:Ei.
+  - rewrite (find_match_self o fa x i Hn (Hl x (or_introl eq_refl)) Ei), E. reflexivity.
+  - exfalso. apply Hs. rewrite <- Ei. apply in_map. apply Hl. left. reflexivity.
+Qed.
+
+Lemma diff1_eq o s v d m ch bs :
+  diff1 sch o (DN s v d m ch) bs =
+    if d && negb o then []
+    else
+      match find_match sch o bs (inst_id sch (DN s v d m ch)) with
+      | None => [(dd_set_op (lift (DN s v d m ch)) (Some OpDelete), SA, false)]
+      | Some b =>
+          match kind_of sch s with
+          | KLeaf =>
+              if negb (beq_bytes v (d_val b)) then
+                [(DD s (d_val b) (d_dflt b) (Some OpReplace) (Some d) (Some v) [], SB, false)]
+              else if o && xorb d (d_dflt b) then
+                [(DD s (d_val b) (d_dflt b) (Some OpNone) (Some d) None [], SB, false)]
+              else []
+          | KLeafList =>
+              if o && xorb d (d_dflt b) then [(DD s (d_val b) (d_dflt b) (Some OpNone) (Some d) None [], SB, false)] else []
+          | KAny => []
+          | KCont _ | KList =>
+              match pass1_all sch (diff1 sch o) true ch (nokeys sch (d_ch b)) ++ pass2_all sch o true (d_ch b) (nokeys sch ch) with
+              | [] => []
+              | g0 :: r =>
+                  let src := match item_side g0 with SA => DN s v d m ch | SB => b end in
+                  let kids := map lift (leadkeys sch (d_ch src)) ++
+                              order_level sch false (pass1_all sch (diff1 sch o) true ch (nokeys sch (d_ch b)) ++
+                                                     pass2_all sch o true (d_ch b) (nokeys sch ch)) in
+                  [(DD s [] (d_dflt src && forallb dd_dflt kids)
+                       (if is_inner_item g0 then None else Some OpNone) None None kids, item_side g0, true)]
+              end
+          end
+      end.
+Proof. reflexivity. Qed.
+
+Lemma xorb_same b : xorb b b = false.
+Proof. destruct b; reflexivity. Qed.
+
+Lemma flat_map_nil {A B} (f : A -> list B) l : (forall x, In x l -> f x = []) -> flat_map f l = [].
+Proof.
+  induction l as [|a l IH]; intro H; [reflexivity|]. cbn [flat_map]. rewrite (H a (or_introl eq_refl)), IH; [reflexivity|].
+  intros x Hx. apply H. right. exact Hx.
+Qed.
+
+Lemma diff1_self o a : wf_node sch a = true -> forall bs, NoDup (ids bs) -> In a bs -> diff1 sch o a bs = [].
+Proof.
+  induction a as [s v d m ch IH] using dnode_ind'. intros Hw bs Hn Hin.
+  pose proof (wf_node_inv _ _ _ _ _ Hw) as W.
+  destruct (inst_id_some_uo (DN s v d m ch) (wn_uo _ _ _ _ _ W)) as [i Hi].
+  rewrite diff1_eq. destruct (d && negb o) eqn:E; [reflexivity|].
+  rewrite Hi, (find_match_self o bs _ i Hn Hin Hi). cbn [d_dflt]. rewrite E. cbn [d_val d_dflt d_ch].
+  assert (Hinner : pass1_all sch (diff1 sch o) true ch (nokeys sch ch) ++ pass2_all sch o true ch (nokeys sch ch) = []).
+  { pose proof (so_nodup _ (wn_sibs _ _ _ _ _ W)) as Hnc. pose proof (NoDup_ids_nokeys _ Hnc) as Hnn.
+    pose proof (wn_ch _ _ _ _ _ W) as Hc. rewrite forallb_forall in Hc.
+    rewrite pass1_all_lead, pass1_all_false, pass2_all_lead_o.
+    rewrite flat_map_nil.
+    - cbn [app]. apply pass2_self; [exact Hnn| |auto].
+      apply (AllSome_app_r (leadkeys sch ch)). rewrite <- lead_nokeys. apply wf_allsome, (wn_ch _ _ _ _ _ W).
+    - intros c Hcin. rewrite Forall_forall in IH. pose proof (nokeys_in _ _ Hcin) as Hcc.
+      apply IH; [exact Hcc|apply Hc, Hcc|exact Hnn|exact Hcin]. }
+  destruct (kind_of sch s).
+  - rewrite Hinner. reflexivity.
+  - rewrite (proj2 (beq_bytes_eq v v) eq_refl), xorb_same, andb_false_r. reflexivity.
+  - rewrite xorb_same, andb_false_r. reflexivity.
+  - rewrite Hinner. reflexivity.
+  - reflexivity.
+Qed.
+
+Theorem diff_self_empty o f : wfb sch f = true -> diff sch o f f = Ok [].
+Proof.
+  intro H. unfold diff. rewrite (wfb_supported _ H). cbn [andb]. f_equal.
+  pose proof (wfb_sibs _ H) as W. pose proof (wfb_nokeys _ H) as Hk.
+  pose proof (so_nodup _ (ws_sibs _ W)) as Hn. pose proof (ws_nodes _ W) as Hc. rewrite forallb_forall in Hc.
+  assert (E : diff_level sch o f f = []).
+  { unfold diff_level. rewrite pass1_all_lead, pass1_all_false, pass2_all_lead_o, (nokeys_none _ Hk).
+    rewrite flat_map_nil; [cbn [app]; apply pass2_self; [exact Hn|apply wf_allsome, (ws_nodes _ W)|auto]|].
+    intros a Ha. apply diff1_self; [apply Hc, Ha|exact Hn|exact Ha]. }
+  rewrite E. reflexivity.
+Qed.
+
+(* the roots of the diff are never list keys *)
+Lemma diff_nokey fa fb ds : wfb sch fa = true -> wfb sch fb = true -> diff sch true fa fb = Ok ds ->
+  forall d, In d ds -> is_key sch (dd_sid d) = false.
+Proof.
+  intros Ha Hb E d Hd. unfold diff in E. rewrite (wfb_supported _ Ha), (wfb_supported _ Hb) in E. cbn [andb] in E.
+  inversion E; subst ds. clear E.
+  pose proof (wfb_nokeys _ Ha) as Hka. pose proof (wfb_nokeys _ Hb) as Hkb.
+  destruct (order_level_sid _ _ _ Hd) as [g [Hg Es]].
+  assert (E : diff_level sch true fa fb = gen_level fa fb).
+  { unfold diff_level. rewrite <- (nokeys_none _ Hka) at 2. rewrite <- (nokeys_none _ Hkb) at 1.
+    rewrite (diff_level_gen fa fb); [rewrite (nokeys_none _ Hka), (nokeys_none _ Hkb); reflexivity| |].
+    - rewrite (nokeys_none _ Hka). exact Hka.
+    - rewrite (nokeys_none _ Hkb). exact Hkb. }
+  rewrite E in Hg. destruct (gen_level_sid _ _ _ Hg) as [x [[Hx|Hx] Ex]]; rewrite Es, Ex; [apply Hka|apply Hkb]; exact Hx.
+Qed.
+
+(* ------------------------------------------------------------------------------------------- *)
+(* without default nodes the defaults option makes no difference                                 *)
+(* ------------------------------------------------------------------------------------------- *)
+Lemma nodflt_inv s v d m ch : nodflt_node (DN s v d m ch) = true -> d = false /\ forallb nodflt_node ch = true.
+Proof. cbn [nodflt_node]. intro H. apply andb_true_iff in H. destruct H as [H1 H2]. apply negb_true_iff in H1. split; assumption. Qed.
+
+Lemma nodflt_dflt n : nodflt_node n = true -> d_dflt n = false.
+Proof. destruct n as [s v d m ch]. intro H. apply (nodflt_inv _ _ _ _ _ H). Qed.
+
+Lemma nodflt_nokeys l : forallb nodflt_node l = true -> forallb nodflt_node (nokeys sch l) = true.
+Proof.
+  intro H. apply forallb_forall. intros x Hx. rewrite forallb_forall in H. apply H, (nokeys_in _ _ Hx).
+Qed.
+
+Lemma find_match_nodflt o f i : forallb nodflt_node f = true -> find_match sch o f i = find_match sch true f i.
+Proof.
+  intro H. unfold find_match. destruct (match_idx sch f i) as [k|]; [|reflexivity].
+  destruct (nth_error f k) as [m|] eqn:E; [|reflexivity].
+  rewrite forallb_forall in H. rewrite (nodflt_dflt m (H m (nth_error_In _ _ E))). reflexivity.
+Qed.
+
+Lemma pass1_all_ext p1 p2 bs : forall l lead,
+  (forall x, In x l -> p1 x bs = p2 x bs) -> pass1_all sch p1 lead l bs = pass1_all sch p2 lead l bs.
+Proof.
+  induction l as [|x l IH]; intros lead H; [reflexivity|]. cbn [pass1_all].
+  destruct (lead && is_key sch (d_sid x)).
+  - apply IH. intros y Hy. apply H. right. exact Hy.
+  - rewrite (H x (or_introl eq_refl)). f_equal. apply IH. intros y Hy. apply H. right. exact Hy.
+Qed.
+
+Lemma pass2_all_nodflt o fa : forallb nodflt_node fa = true -> forall l lead,
+  forallb nodflt_node l = true -> pass2_all sch o lead l fa = pass2_all sch true lead l fa.
+Proof.
+  intros Hfa. induction l as [|x l IH]; intros lead Hl; [reflexivity|]. cbn [forallb] in Hl.
+  apply andb_true_iff in Hl. destruct Hl as [Hx Hl]. cbn [pass2_all].
+  destruct (lead && is_key sch (d_sid x)); [apply IH; exact Hl|].
+  rewrite (nodflt_dflt x Hx). cbn [andb]. rewrite (find_match_nodflt o fa _ Hfa). f_equal. apply IH. exact Hl.
+Qed.
+
+Lemma diff1_nodflt o a : nodflt_node a = true -> forall bs, forallb nodflt_node bs = true ->
+  diff1 sch o a bs = diff1 sch true a bs.
+Proof.
+  induction a as [s v d m ch IH] using dnode_ind'. intros Ha bs Hbs.
+  destruct (nodflt_inv _ _ _ _ _ Ha) as [-> Hch]. rewrite !diff1_eq. cbn [andb].
+  rewrite (find_match_nodflt o bs _ Hbs).
+  destruct (find_match sch true bs (inst_id sch (DN s v false m ch))) as [b|] eqn:Ef; [|reflexivity].
+  assert (Hb : nodflt_node b = true).
+  { unfold find_match in Ef. destruct (match_idx sch bs _) as [k|]; [|discriminate].
+    destruct (nth_error bs k) as [m0|] eqn:E; [|discriminate]. rewrite andb_false_r in Ef. inversion Ef; subst m0.
+    rewrite forallb_forall in Hbs. apply Hbs, (nth_error_In _ _ E). }
+  rewrite (nodflt_dflt b Hb). cbn [xorb]. rewrite !andb_false_r.
+  destruct b as [sb vb db mb chb]. destruct (nodflt_inv _ _ _ _ _ Hb) as [-> Hchb]. cbn [d_ch d_val d_dflt].
+  assert (E1 : pass1_all sch (diff1 sch o) true ch (nokeys sch chb) = pass1_all sch (diff1 sch true) true ch (nokeys sch chb)).
+  { apply pass1_all_ext. intros x Hx. rewrite Forall_forall in IH. apply IH; [exact Hx| |apply nodflt_nokeys; exact Hchb].
+    rewrite forallb_forall in Hch. apply Hch, Hx. }
+  assert (E2 : pass2_all sch o true chb (nokeys sch ch) = pass2_all sch true true chb (nokeys sch ch)).
+  { apply pass2_all_nodflt; [apply nodflt_nokeys; exact Hch|exact Hchb]. }
+  rewrite E1, E2. reflexivity.
+Qed.
+
+Theorem diff_nodflt_option o fa fb : nodfltb fa = true -> nodfltb fb = true -> diff sch o fa fb = diff sch true fa fb.
+Proof.
+  intros Ha Hb. unfold diff. destruct (supportedb sch fa && supportedb sch fb); [|reflexivity]. f_equal. f_equal.
+  unfold diff_level. f_equal.
+  - apply pass1_all_ext. intros x Hx. apply diff1_nodflt; [|exact Hb]. unfold nodfltb in Ha. rewrite forallb_forall in Ha. apply Ha, Hx.
+  - apply pass2_all_nodflt; assumption.
+Qed.
+
+(* C06 without the defaults option, on trees that hold no default nodes: exact *)
+Theorem apply_diff_nodflt_partial fa fb :
+  wfb sch fa = true -> wfb sch fb = true -> nodfltb fa = true -> nodfltb fb = true ->
+  exists ds, diff sch false fa fb = Ok ds /\ apply sch ds fa = Ok fb.
+Proof.
+  intros Ha Hb Na Nb. rewrite (diff_nodflt_option false fa fb Na Nb). apply apply_diff_exact; assumption.
 Qed.
 End WithSchema.
